@@ -33,7 +33,10 @@ def run_cases(cases, res, stratum):
         # obtained by indexing; the checked pair sits at position 0 of the result (the other positions hold a harmless second pair)
         lay = tup[6] if len(tup) > 6 else ('ss', 'ss', 'ss', 'as', 'sa', 'aa', 'ai')[(ci * 7 + cx + cy) % 7]
         case = {'x': list(fxm), 'cx': cx, 'y': list(fym), 'cy': cy, 'method': method, 'rounding': rnd, 'layout': lay}
+        tmpl = tup[7] if len(tup) > 7 else None
+        if tmpl: case['template'] = tmpl
         try:
+            if tmpl: fx.Fxp.template = fx.Fxp(None, dtype=tmpl)       # a class-wide template (plain format): the results are sized by the operands, not by it
             x = A.mk(fx, np, *fxm, [cx, cx] if lay[0] == 'a' else cx, shape=(2,) if lay[0] == 'a' else None, rounding=rnd, op_method=method)
             y = A.mk(fx, np, *fym, [cy, cy] if lay[1] in 'ai' else cy, shape=(2,) if lay[1] in 'ai' else None, rounding=rnd, op_method=method)
             if lay[1] == 'i': y = y[0]
@@ -45,6 +48,8 @@ def run_cases(cases, res, stratum):
                    'md': (A.fmt_of(md), lib.codes_of(md)[0], lib.status3(md)) if md is not None else None, 'rec': (Fraction(lib.codes_of(rec)[0]) / Fraction(2) ** rec.n_frac) if rec is not None else None}
         except Exception as e:
             res.fail(case, 'C09: division family raised %s' % lib.exc_name(e), got=str(e)[:200]); continue
+        finally:
+            fx.Fxp.template = None
         pend.append((case, obs)); reqs.append([43] + e_fmt(*fxm) + [cx] + e_fmt(*fym) + [cy])
         for d in (0, 1, 2):
             reqs.append([44, d, 0 if method == 'raw' else 1] + e_fmt(*fxm) + [1, cx] + e_fmt(*fym) + [1, cy] + [RMODES.index(rnd), 0])
@@ -222,6 +227,8 @@ def shard(shard, nshards, rng, tier, extra):
         if cy == 0: continue
         cases.append((fxm, cx, fym, cy, rng.choice(['raw', 'repr']), rng.choice(['trunc', 'floor', 'around'])))
     run_cases(cases, res, 'B:random-to-53-bits')
+    # (T) the same while a class-wide template of either signedness is installed (Fxp.template)
+    run_cases([t + (('ss', 'as', 'sa', 'aa')[i % 4], rng.choice(['fxp-u8/2', 'fxp-s16/4', 'fxp-u16/0', 'fxp-s8/7'])) for i, t in enumerate(cases[:len(cases) // 4])], res, 'T:class-template-installed')
     # (C) operands up to 62 bits whose // and % results stay within 53 bits (x/y is skipped when its own word is wider)
     cases = []
     n = (4500 if tier == 'quick' else 40000) // nshards
@@ -272,5 +279,5 @@ def replay(payload):
         run_imposed([c], res); return {'holds': not res.failures, 'failures': res.failures}
     if c.get('odd'):
         run_odd([c], res); return {'holds': not res.failures, 'failures': res.failures}
-    run_cases([(tuple(c['x']), c['cx'], tuple(c['y']), c['cy'], c['method'], c['rounding'], c.get('layout', 'ss'))], res, 'replay')
+    run_cases([(tuple(c['x']), c['cx'], tuple(c['y']), c['cy'], c['method'], c['rounding'], c.get('layout', 'ss'), c.get('template'))], res, 'replay')
     return {'holds': not res.failures, 'failures': res.failures}
